@@ -37,6 +37,13 @@ def judge_point(name, params, limit, seeds):
         if m:
             return fail(m, choices, 'malformed')
     st['states'] = len(keys)
+    if keys and (shipped or params['shape'][0] * params['shape'][1] <= 36):
+        for choices, res in outs[:2]:
+            m = judge_reset_twice(name, params, choices)
+            if m:
+                st2, f = fail(m, choices, 'depends_on_earlier_state')
+                f['kind'] = 'reset_twice'
+                return st2, f
     for sd in seeds:
         script, res = RS.real_seed(name, params, sd)
         st['replays'] += 1
@@ -55,6 +62,49 @@ def judge_point(name, params, limit, seeds):
             if info['complete'] and a not in keys:
                 return st, {'kind': 'INTERNAL', 'message': f'numpy seed {sd} outcome outside the enumerated set for {name} {params}'}
     return st, None
+
+
+def judge_reset_twice(name, params, script):
+    """a reset must not depend on, nor share objects with, states returned earlier: reset, scramble the returned state in
+    place (move the agent onto the exit / a wall, put a key in its hand, overwrite cells), reset again with the same draws"""
+    from gym_gridverse.geometry import Position
+    from gym_gridverse.grid_object import Key, Color, Wall
+
+    first = RS.call(name, params, ChoiceRng(script))
+    if isinstance(first, tuple):
+        return None
+    k1 = sdesc(first)
+    ids1 = _ids(first)
+    first.agent.grid_object = Key(Color.YELLOW)
+    first.agent.position = Position(0, 0)
+    first.agent.orientation = first.agent.orientation * first.agent.orientation.B
+    for row in first.grid.objects:
+        row[0], row[-1] = row[-1], Wall()
+        for o in row:
+            if 'color' in getattr(o, '__dict__', {}):
+                o.color = Color.BLUE
+    second = RS.call(name, params, ChoiceRng(script))
+    if isinstance(second, tuple):
+        return f'the second identical call raised {second[1]}'
+    k2 = sdesc(second)
+    if k2 != k1:
+        m = RS.wellformed(name, params, k2)
+        return ('a reset with the same random draws returns a different state after an earlier returned state was modified in '
+                f'place{": " + m if m else ""}')
+    shared = set(ids1) & set(_ids(second))
+    if shared:
+        return f'two resets return states sharing mutable objects: {sorted({ids1[i] for i in shared})}'
+    return None
+
+
+def _ids(st):
+    ids = {id(st.grid): 'Grid', id(st.grid.objects): 'rows', id(st.agent): 'Agent', id(st.agent.transform): 'Transform'}
+    for row in st.grid.objects:
+        ids[id(row)] = 'row'
+        for o in row:
+            if getattr(o, '__dict__', None):
+                ids[id(o)] = type(o).__name__
+    return ids
 
 
 def _fmt(params):
@@ -78,6 +128,8 @@ def _work(job):
 
 
 def replay(case):
+    if case['kind'] == 'reset_twice':
+        return judge_reset_twice(case['name'], _params(case['params']), case['script'])
     res = RS.call(case['name'], _params(case['params']), ChoiceRng(case['script']))
     if isinstance(res, tuple):
         if res[1] != 'ValueError':
